@@ -33,12 +33,23 @@ impl Dom {
         }
     }
     pub fn from_rooc(t: &VariableType) -> Dom {
-        let fin = |v: f64| if v.is_finite() { Some(v) } else { None };
+        // -inf lower / +inf upper mean "no bound"; any other non-finite value (a lower bound of
+        // +inf, NaN) is kept as it is and makes the domain empty (`is_degenerate`)
+        let lo = |v: f64| if v == f64::NEG_INFINITY { None } else { Some(v) };
+        let hi = |v: f64| if v == f64::INFINITY { None } else { Some(v) };
         match t {
             VariableType::Boolean => Dom::Bool,
             VariableType::IntegerRange(a, b) => Dom::Int(*a, *b),
-            VariableType::Real(a, b) => Dom::Real(fin(*a), fin(*b)),
-            VariableType::NonNegativeReal(a, b) => Dom::NonNeg(*a, fin(*b)),
+            VariableType::Real(a, b) => Dom::Real(lo(*a), hi(*b)),
+            VariableType::NonNegativeReal(a, b) => Dom::NonNeg(*a, hi(*b)),
+        }
+    }
+    /// a bound that is NaN or infinite on the wrong side: no value satisfies the domain
+    pub fn is_degenerate(&self) -> bool {
+        match self {
+            Dom::Bool | Dom::Int(_, _) => false,
+            Dom::Real(a, b) => a.map(|v| !v.is_finite()).unwrap_or(false) || b.map(|v| !v.is_finite()).unwrap_or(false),
+            Dom::NonNeg(a, b) => !a.is_finite() || b.map(|v| !v.is_finite()).unwrap_or(false),
         }
     }
     pub fn is_discrete(&self) -> bool {
